@@ -171,10 +171,17 @@ def joinWith (sep : GoStr) : List GoStr → GoStr
   | [a] => a
   | a :: rest => a ++ sep ++ joinWith sep rest
 
+/-- `startsWithStatement`: the code begins with the keyword(s) `s` as whole words -/
+def startsStmt (code s : GoStr) : Bool :=
+  hasPrefix code s &&
+    (match code.drop s.length with
+     | [] => true
+     | c :: _ => !(c == 95 || c ≥ 128 || (48 ≤ c && c ≤ 57) || (97 ≤ c && c ≤ 122) || (65 ≤ c && c ≤ 90)))
+
 /-- a `- statement` opens a block when it has nested nodes, or is a control-flow line written without its brace -/
 def silentHasBlock (o : Tok) (kids : List Node) : Bool :=
   let code := trimSpace o.lit
-  !kids.isEmpty || ((Gen.openingStatements.any fun s => hasPrefix code s) && !hasSuffix code [123])
+  !kids.isEmpty || ((Gen.openingStatements.any fun s => startsStmt code s) && !hasSuffix code [123])
 
 def isSilent : Node → Option GoStr
   | .silent o _ _ => some o.lit
@@ -378,7 +385,7 @@ def emitNode (n : Node) (needsClose : Bool) (nextSib : Option Node) (g : G) (w :
     pure (g, { w with isUnescaped := false })
   | .silent o _ kids => do
     let code := trimSpaceStr o.lit
-    let isOpening := Gen.openingStatements.any fun s => hasPrefix code s
+    let isOpening := Gen.openingStatements.any fun s => startsStmt code s
     let start := if needsClose && !hasPrefix code (bs "}") then bs "} " else []
     let hasBlock := silentHasBlock o kids
     let endS := if hasBlock && isOpening && !hasSuffix code (bs "{") then bs " {\n" else bs "\n"
@@ -392,7 +399,7 @@ def emitNode (n : Node) (needsClose : Bool) (nextSib : Option Node) (g : G) (w :
     let (g, _) := twClose g iw
     let nextCode := nextSib.bind isSilent
     let continued := match nextCode with
-      | some c => Gen.elseStatements.any fun s => hasPrefix c s      -- the else branch closes this block itself
+      | some c => Gen.elseStatements.any fun s => startsStmt (trimSpaceStr c) s      -- the else branch closes this block itself
       | none => false
     if !continued && isOpening && !(nextCode.isSome && hasSuffix code (bs "{")) then
       let (g, w, _) := twWriteIndent g w (bs "}\n")
@@ -450,7 +457,7 @@ def emitKids (kids : List Node) (needsClose : Bool) (g : G) (w : W) : Except Str
     -- does `k` set needsClose on its next sibling?
     let nc :=
       match k, rest.head?.bind isSilent with
-      | .silent o _ ks, some code => silentHasBlock o ks && Gen.elseStatements.any (fun s => hasPrefix code s)
+      | .silent o _ ks, some code => silentHasBlock o ks && Gen.elseStatements.any (fun s => startsStmt (trimSpaceStr code) s)
       | _, _ => false
     emitKids rest nc g w
 end
